@@ -95,19 +95,19 @@ CHECKS = {
         note="depth <= 3; observations only through extract_child / fill_context; hooks that raise are represented by extract_outermost ending by exception through push()'s finally",
         ref="3.3, 4 C13"),
     "C14": dict(
-        technique="TLA+ spec of Trio task-tree evolution (TaskTree.tla; the state is the expected extraction), TLC exhaustive under VIEW + simulated evolutions replayed by command-interpreting Trio tasks; extract(root, recurse_child_tasks=True) compared with the spec tree at every second step",
-        text="open-nursery (four source forms of the body), start-child, leave-body (blocks in __aexit__ while children live), child-finishes over <= 6 tasks and nesting <= 3; nurseries by identity in nesting order, children by root identity, is_exiting, no error / warning; spec tree first checked against Trio's child_nurseries / child_tasks; to_thread / from_thread ping-pong depth 0..2, outside and inside",
-        note="3.12 only; one trio.run per behaviour; thread hops as static scenarios (PingPong(d)), not part of the dynamic model",
+        technique="TLA+ spec of Trio task-tree evolution (TaskTree.tla; the state is the expected extraction), TLC exhaustive under VIEW + simulated evolutions replayed by command-interpreting Trio tasks; extract(root, recurse_child_tasks=True) compared with the spec tree at every second step; FromThread.tla (foreign threads calling from_thread.run with a token: queued / serving / returned / called again, Trio thread possibly stuck in synchronous code) replayed with real threads",
+        text="open-nursery (four source forms of the body), start-child, leave-body (blocks in __aexit__ while children live), child-finishes over <= 6 tasks and nesting <= 3; nurseries by identity in nesting order, children by root identity, is_exiting, no error / warning; spec tree first checked against Trio's child_nurseries / child_tasks; to_thread / from_thread ping-pong depth 0..2, outside and inside; tasks may install greenback portals (expected tree unchanged); extract(foreign thread) = its own frames (identity with sys._current_frames) plus, only while its call is served, the serving task's frames afn t(d) s(d) .. t(0)",
+        note="3.12 only; one trio.run per behaviour; F18 (serving task not found while it handles a re-entrant call) was found by this check and repaired in /repo (3993639)",
         ref="3.7, 4 C14"),
     "C15": dict(
-        technique="TLA+ spec of greenlet forests (Greenlets.tla: parent assignments, start/call/return/finish, observers), TLC exhaustive under VIEW + simulated behaviours replayed with command-interpreting greenlet bodies; greenback bridges Bridge(d) replayed under Trio",
-        text="for every reachable forest state extract(target) is called by the observer the behaviour names (main, the target itself, a child, an unrelated greenlet) and must return the target's own segment (entry .. switch point), nothing for unstarted/dead; a greenlet running in another thread must give an error; greenback alternation depth 0..3 from outside and inside the task",
-        note="3.12 only; F8 (observer descends from the target) is a known finding matched by the forest relation; PyPy-specific code paths unreachable",
+        technique="TLA+ spec of greenlet forests (Greenlets.tla: parent assignments, start/call/return/finish, observers), TLC exhaustive under VIEW + simulated behaviours replayed with command-interpreting greenlet bodies; greenback bridges Bridge(d) replayed under Trio; Portal.tla (a task's logical call stack over await / call / await_ / with_portal_run / with_portal_run_sync / ensure_portal edges -> the physical arrangement greenback makes of it -> what the traversal reaches given the registered hooks), every behaviour of 4 actions + simulated ones of 12 replayed in a real Trio task",
+        text="for every reachable forest state extract(target) is called by the observer the behaviour names (main, the target itself, a child, an unrelated greenlet) and must return the target's own segment (entry .. switch point), nothing for unstarted/dead; a greenlet running in another thread must give an error; greenback alternation depth 0..3 from outside and inside the task; for portal behaviours each real frame list (inside and outside observation after every action) is compared frame by frame with the specification's Walk: class of every frame incl. greenback / outcome internals, user frame index, hide flags, contexts",
+        note="3.12 only; F8 (observer descends from the target) and F17 (with_portal_run_sync) were found by this check and repaired in /repo (e26936e, 81260ea); PyPy-specific code paths unreachable",
         ref="3.7, 4 C15"),
     "C16": dict(
-        technique="TLC on ExtractIter with generator-type wrappers (OriginContractX, OutermostIsFirst); origin contract evaluated on every real chain (suspended and running) via API and via the trace spec's verdict; extract_outermost vs extract on given tables",
-        text="origin contract and extract_outermost == first frame hold for all tables in the bound on the model (with the F5 excuse named), for every chain of the C03 space on 3.9-3.12 including running carriers, and for thousands of synthetic table sets",
-        note="F5 (inherited origin of frames inward of a running generator-type item) is a known finding, matched by an independent signature; threads/greenlets are covered by C07/C15 runs",
+        technique="TLC on ExtractIter with generator-type wrappers (OriginContract, OutermostIsFirst); origin contract evaluated on every real chain (suspended and running) via API and via the trace spec's verdict; extract_outermost vs extract on given tables",
+        text="origin contract and extract_outermost == first frame hold for all tables in the bound on the model (strictly since the repair of F5; FixedF5 = FALSE reproduces the old behaviour), for every chain of the C03 space on 3.9-3.12 including running carriers, and for thousands of synthetic table sets",
+        note="F5 (inherited origin of frames inward of a running generator-type item) was found by this check and repaired in /repo (beeeeb8); threads, greenlets and custom items are covered by the other_items part",
         ref="3.1, 4 C16"),
 }
 
